@@ -134,7 +134,9 @@ func (g *Gen) scenEval() []N {
 func (g *Gen) scenThis() []N {
 	f := g.fresh("ft")
 	o := g.fresh("ot")
-	isG := func() N { return Cond(Bin("===", This(), Id(o)), Str("o"), Cond(Bin("===", This(), Id("GLOBAL")), Str("global"), Un("typeof", This()))) }
+	isG := func() N {
+		return Cond(Bin("===", This(), Id(o)), Str("o"), Cond(Bin("===", This(), Id("GLOBAL")), Str("global"), Un("typeof", This())))
+	}
 	out := []N{Var("GLOBAL", This()), FDecl(f, []string{"x"}, Return(isG())),
 		Var(o, Obj("m", Id(f), "n", Obj("m", Id(f)))), Var("m2", Dot(Id(o), "m"))}
 	forms := []N{
@@ -281,7 +283,9 @@ func (g *Gen) scenObject() []N {
 		func() N { return Expr(od("defineProperty", Id(o), Str("d"), Obj("enumerable", Bool(false)))) },
 		func() N { return Expr(od([]string{"freeze", "seal", "preventExtensions"}[g.pick(3)], Id(o))) },
 		func() N { return g.hcall(od("isFrozen", Id(o)), od("isSealed", Id(o)), od("isExtensible", Id(o))) },
-		func() N { return g.hcall(Dot(od("keys", Id(o)), "length"), Dot(od("getOwnPropertyNames", Id(o)), "length")) },
+		func() N {
+			return g.hcall(Dot(od("keys", Id(o)), "length"), Dot(od("getOwnPropertyNames", Id(o)), "length"))
+		},
 		func() N { return Expr(Asg("=", Dot(Id(o), "fresh"), Num(1))) },
 		func() N { return g.hcall(Un("delete", Dot(Id(o), []string{"d", "g", "n"}[g.pick(3)]))) },
 		func() N {
@@ -309,7 +313,6 @@ func (g *Gen) scenObject() []N {
 	out = append(out, g.hcall(Dot(Id(o), "d"), Dot(Id(o), "g")))
 	return out
 }
-
 
 // labelled statements of every kind with a jump to the label from inside a nested
 // statement (12.12: the label set of the labelled statement is not inherited by the
